@@ -115,14 +115,18 @@ func (engine) Generate(r *lib.Rng, tier string, i int) any {
 	return generate(r, tier, i)
 }
 
-// generate: every second single graph case also gets a typed twin (typed.go); the regime is drawn after the case.
+// generate: one in three single graph cases also gets a typed twin (typed.go; every zeroify case has one); one in ten
+// runs on the nil input, half of these with the all-interface twin. Both are drawn after the case.
 func generate(r *lib.Rng, tier string, i int) *Case {
 	c := generateCase(r, tier, i)
 	if c.Graph != nil && len(c.Rerun) == 0 && len(c.Concurrent) == 0 && !c.Shared {
-		if c.Typed == "" && r.Chance(1, 2) {
+		if c.Typed == "" && r.Chance(1, 3) {
 			c.Typed = typedRegimes[r.Intn(len(typedRegimes))]
 		}
 		c.NilInput = r.Chance(1, 10)
+		if c.NilInput && r.Chance(1, 2) {
+			c.Typed = "aa"
+		}
 	}
 	return c
 }
